@@ -47,6 +47,10 @@ pub struct HOp {
 pub struct HistCase {
     pub n: usize,
     pub ops: Vec<HOp>,
+    /// bursts of plain connects (u, v, value, count), u != v, applied before `ops`; the state after
+    /// them is compared with the model once (long adjacency lists without a per-connect observation)
+    #[serde(default, skip_serializing_if = "Vec::is_empty")]
+    pub prelude: Vec<(usize, usize, EV, u32)>,
 }
 
 #[derive(Clone, Copy, PartialEq, Eq, Debug)]
@@ -304,6 +308,36 @@ pub fn run_hist<F: Flavour>(case: &HistCase, which: Which, st: &mut Stats, count
         Ok(s) => s,
         Err(p) => return Some(StepFail { step: 0, fail: Fail { clause: "observe.panic", detail: p }, pre: State::empty(n), resolved: vec![] }),
     };
+    if !case.prelude.is_empty() {
+        let mut m = State::empty(n);
+        for &(u, v, e, count) in &case.prelude {
+            if u == v || u >= n || v >= n {
+                continue;
+            }
+            for _ in 0..count {
+                if let Ret::Panic(p) = apply_op::<F>(OpKind::Connect, &nodes[u], &nodes[v], v as Key, e) {
+                    return Some(StepFail { step: 0, fail: Fail { clause: "prelude.panic", detail: p }, pre: State::empty(n), resolved: vec![] });
+                }
+                m.out[u].push((v as Key, e));
+                if F::DIRECTED {
+                    m.inc[v].push((u as Key, e));
+                } else {
+                    m.out[v].push((u as Key, e));
+                }
+            }
+        }
+        s = match observe::<F>(&nodes) {
+            Ok(s) => s,
+            Err(p) => return Some(StepFail { step: 0, fail: Fail { clause: "observe.panic", detail: p }, pre: State::empty(n), resolved: vec![] }),
+        };
+        if s != m {
+            let d = (0..n).map(|k| format!("node {}: out {} (model {}) in {} (model {})", k, s.out[k].len(), m.out[k].len(), s.inc[k].len(), m.inc[k].len())).collect::<Vec<_>>().join("; ");
+            return Some(StepFail { step: 0, fail: Fail { clause: "prelude.state-differs-from-model", detail: d }, pre: State::empty(n), resolved: vec![] });
+        }
+        if counting {
+            st.class("prelude.long-adjacency-list");
+        }
+    }
     let mut resolved: Vec<HOp> = Vec::with_capacity(case.ops.len());
     for (i, op) in case.ops.iter().enumerate() {
         let op = &resolve(op, &s);
@@ -413,14 +447,15 @@ pub fn signature(flavour: &str, op: &HOp, pre: &State, directed: bool, clause: &
 }
 
 fn finding<F: Flavour>(which: Which, case: &HistCase, sf: &StepFail) -> Finding {
-    let c = HistCase { n: case.n, ops: sf.resolved.clone() };
-    let op = &c.ops[sf.step];
+    let c = HistCase { n: case.n, ops: sf.resolved.clone(), prelude: case.prelude.clone() };
+    let dummy = HOp { kind: OpKind::Connect, u: 0, v: 0, e: 0, pu: Prov::Orig, pv: Prov::Orig, guide: None };
+    let op = c.ops.get(sf.step).unwrap_or(&dummy);
     Finding {
         property: which.id().into(),
         flavour: F::NAME.into(),
         clause: sf.fail.clause.into(),
         signature: signature(F::NAME, op, &sf.pre, F::DIRECTED, sf.fail.clause),
-        case: json!({"kind": "history", "flavour": F::NAME, "n": c.n, "ops": c.ops, "failing_step": sf.step, "pre_state": sf.pre}),
+        case: json!({"kind": "history", "flavour": F::NAME, "n": c.n, "prelude": c.prelude, "ops": c.ops, "failing_step": sf.step, "pre_state": sf.pre}),
         detail: format!("step {} {:?}: {}", sf.step, op, sf.fail.detail),
     }
 }
@@ -501,7 +536,7 @@ pub fn hist_strategy(max_len: usize, max_n: usize) -> impl Strategy<Value = Hist
             };
             HOp { kind, u: ui, v: if kind == OpKind::Isolate { ui } else { vi }, e, pu, pv: if kind == OpKind::Isolate { Prov::Orig } else { pv }, guide: if gcoin < gp { Some(g) } else { None } }
         });
-        proptest::collection::vec(op, 0..=len).prop_map(move |ops| HistCase { n, ops })
+        proptest::collection::vec(op, 0..=len).prop_map(move |ops| HistCase { n, ops, prelude: vec![] })
     })
 }
 
@@ -566,7 +601,7 @@ pub fn enumerate<F: Flavour>(which: Which, n: usize, max_edges: usize, st: &mut 
             }
             let mut ops = witness.clone();
             ops.push(*op);
-            let case = HistCase { n, ops };
+            let case = HistCase { n, ops, prelude: vec![] };
             st.eval();
             transitions += 1;
             // only the last step is new: earlier prefixes were checked when
@@ -741,7 +776,7 @@ pub fn run(which: Which, ctx: &mut Ctx) {
                 let vi = if coin < pself { ui } else { pt::idx(v, n) };
                 HOp { kind, u: ui, v: if kind == OpKind::Isolate { ui } else { vi }, e, pu: Prov::Orig, pv: Prov::Orig, guide: if gcoin < 40 && kind == OpKind::Disconnect { Some(g) } else { None } }
             });
-            proptest::collection::vec(op, len..=len + 30).prop_map(move |ops| HistCase { n, ops })
+            proptest::collection::vec(op, len..=len + 30).prop_map(move |ops| HistCase { n, ops, prelude: vec![] })
         });
         let minimal = pt::run_with(seed, 50 + w as u64, long_cases, 3000, &strat, |case, counting| {
             wd.tick();
@@ -763,4 +798,107 @@ pub fn run(which: Which, ctx: &mut Ctx) {
         st
     });
     ctx.stats.merge(long);
+    // (d) long adjacency lists: a hub with 9 .. 2100 parallel/out edges built by a burst of connects, then a
+    // short checked history around the hub (try_connect in both directions with an edge in one direction
+    // only, lookups, disconnects, isolate). Sizes sit on both sides of the powers of two.
+    let sizes: Vec<u32> = tier.pick(vec![9, 17, 33, 65, 129, 257, 513, 1025, 1100], vec![9, 17, 33, 65, 129, 257, 513, 1025, 2049, 2100, 4100]);
+    let mut scripted: Vec<HistCase> = vec![];
+    for &k in &sizes {
+        for inward in [false, true] {
+            for split in [false, true] {
+                let (a, b) = if inward { (1usize, 0usize) } else { (0, 1) };
+                let mut prelude = vec![(a, b, 0, if split { k / 2 } else { k })];
+                if split {
+                    prelude.push((if inward { 2 } else { 0 }, if inward { 0 } else { 2 }, 1, k - k / 2));
+                }
+                let o = |kind, u, v, e| HOp { kind, u, v, e, pu: Prov::Orig, pv: Prov::Orig, guide: None };
+                // h = hub, f = a node with no edge to or from the hub so far
+                let (h, f) = (0usize, 3usize);
+                let (x, y) = if inward { (h, f) } else { (f, h) }; // the single edge goes against the hub's long list
+                let ops = vec![
+                    o(OpKind::Lookup, h, f, 0),
+                    o(OpKind::Connect, x, y, 1),
+                    o(OpKind::TryConnect, y, x, 0),
+                    o(OpKind::TryConnect, y, x, 0),
+                    o(OpKind::TryConnect, h, 1, 1),
+                    o(OpKind::TryConnect, 1, h, 1),
+                    o(OpKind::Lookup, h, f, 0),
+                    o(OpKind::Lookup, f, h, 0),
+                    o(OpKind::Disconnect, y, x, 0),
+                    o(OpKind::Disconnect, x, y, 0),
+                    o(OpKind::Disconnect, h, 1, 0),
+                    o(OpKind::Disconnect, 1, h, 0),
+                    o(OpKind::TryConnect, h, h, 1),
+                    o(OpKind::Connect, h, 2, 1),
+                    o(OpKind::Lookup, h, 2, 0),
+                    o(OpKind::Isolate, 1, 1, 0),
+                    o(OpKind::TryConnect, h, 1, 0),
+                    o(OpKind::Isolate, h, h, 0),
+                    o(OpKind::Connect, h, 1, 0),
+                ];
+                scripted.push(HistCase { n: 4, ops, prelude });
+            }
+        }
+    }
+    for case in &scripted {
+        ctx.watchdog.tick();
+        ctx.stats.class("long-list.scripted");
+        ctx.stats.nontrivial(case);
+        run_all(case, which, &mut ctx.stats, true, None);
+    }
+    let ll_cases = tier.pick(700u32, 6000u32);
+    let sizes2 = sizes.clone();
+    let longlist = parallel(workers, |w| {
+        let mut st = Stats::new();
+        let cell = std::cell::RefCell::new(&mut st);
+        let sz = sizes2.clone();
+        let strat = (0usize..sz.len(), 0u32..4, any::<bool>(), any::<bool>(), 8usize..=40).prop_flat_map(move |(si, jit, inward, split, len)| {
+            let k = sz[si] + jit;
+            let n = 4usize;
+            let op = (0u8..12, any::<u16>(), any::<u16>(), 0u8..100, 0u32..2, 0u8..100, any::<u16>()).prop_map(move |(kk, u, v, coin, e, gcoin, g)| {
+                let kind = match kk {
+                    0..=2 => OpKind::Connect,
+                    3..=5 => OpKind::TryConnect,
+                    6..=8 => OpKind::Disconnect,
+                    9 => OpKind::Isolate,
+                    _ => OpKind::Lookup,
+                };
+                // half of the calls involve the hub (node 0)
+                let (ui, vi) = match coin {
+                    0..=24 => (0, pt::idx(v, n)),
+                    25..=49 => (pt::idx(u, n), 0),
+                    _ => (pt::idx(u, n), pt::idx(v, n)),
+                };
+                HOp { kind, u: ui, v: if kind == OpKind::Isolate { ui } else { vi }, e, pu: Prov::Orig, pv: Prov::Orig, guide: if gcoin < 10 && kind == OpKind::Disconnect { Some(g) } else { None } }
+            });
+            proptest::collection::vec(op, len..=len + 10).prop_map(move |ops| {
+                let (a, b) = if inward { (1usize, 0usize) } else { (0, 1) };
+                let mut prelude = vec![(a, b, 0, if split { k / 2 } else { k })];
+                if split {
+                    prelude.push((if inward { 2 } else { 0 }, if inward { 0 } else { 2 }, 1, k - k / 2));
+                }
+                HistCase { n, ops, prelude }
+            })
+        });
+        let minimal = pt::run_with(seed, 90 + w as u64, ll_cases, 2000, &strat, |case, counting| {
+            wd.tick();
+            if counting {
+                let mut st = cell.borrow_mut();
+                st.class("long-list.random-tail");
+                st.class(&format!("long-list.hub-degree.{}", match case.prelude.iter().map(|p| p.3).sum::<u32>() { 0..=64 => "<=64", 65..=256 => "65-256", 257..=1024 => "257-1024", _ => ">1024" }));
+                st.nontrivial(case);
+                run_all(case, which, &mut st, true, None)
+            } else {
+                let mut scratch = Stats::new();
+                run_all(case, which, &mut scratch, false, None)
+            }
+        });
+        drop(cell);
+        if let Some(m) = minimal {
+            st.findings.clear();
+            run_all(&m, which, &mut st, false, None);
+        }
+        st
+    });
+    ctx.stats.merge(longlist);
 }
